@@ -45,6 +45,19 @@ def gen(rng, tier):
         L = rng.randint(0, 15)
         s = "".join(rng.choice(NT[:4]) for _ in range(L))
         yield Case("translate", [rng.randint(3, 6), 0, s], False, "large-phase")
+    for c in gen_al(rng, tier):
+        yield c
+
+
+def gen_al(rng, tier):
+    """Alignment.Translate: rows, frame-suffixed names and the cached Length(), all residues L mod 3, phases 0,1,2,-1"""
+    N = 150 if tier == "quick" else 1500
+    for _ in range(N):
+        n = rng.randint(1, 4)
+        L = rng.choice([2, 3, 4, 5, 6, 7, 8, 9, 10, 11, rng.randint(12, 30)])
+        al = rng.choice([NT[:4], NT[:4], NT])
+        rows = ",".join("s%d:%s" % (i, "".join(rng.choice(al) for _ in range(L))) for i in range(n))
+        yield Case("altranslate", [1, rng.choice([0, 1, 2, -1, -1]), rng.choice([0, 1, 2, 0, 1, 2, 3]), rows], L >= 5, "alignment-translate")
 
 
 def shrink(c):
@@ -58,3 +71,9 @@ def shrink(c):
     if len(s) <= 12:
         for j in range(len(s)):
             yield Case(c.op, [c.args[0], c.args[1], s[:j] + s[j + 1:]])
+
+
+def matches(c):
+    if c.op == "altranslate" and c.model == "err":
+        return (c.impl or "").startswith("err")      # what an operation that failed leaves behind is not judged
+    return c.model == c.impl
